@@ -88,7 +88,8 @@ class _Deliver:
         self.name = "deliver:%s:%s" % (q.name, proc)
 
     def enabled(self):
-        return bool(self.q.inflight.get(self.proc))
+        # pipe_cap models the capacity of the OS pipe in items (large payloads: only a few fit until the reader takes them)
+        return bool(self.q.inflight.get(self.proc)) and (self.q.pipe_cap is None or len(self.q.items) < self.q.pipe_cap)
 
     def step(self):
         self.q.items.append(self.q.inflight[self.proc].pop(0))
@@ -100,11 +101,12 @@ class SimPipeQueue(Shared):
     scheduler-controlled step, so items of different producers arrive in any order and get(False) may raise Empty while
     items are in flight; bounded variant counts in-flight + delivered."""
 
-    def __init__(self, maxsize=0, name="pipe"):
+    def __init__(self, maxsize=0, name="pipe", pipe_cap=None):
         self.maxsize = maxsize if (maxsize and maxsize > 0) else 0
         self.items = []
         self.inflight = {}
         self.name = name
+        self.pipe_cap = pipe_cap
 
     def _count(self):
         return len(self.items) + sum(len(v) for v in self.inflight.values())
